@@ -63,6 +63,10 @@ class Interp(StmtMixin, ObjMixin):
                 fr = Frame(mod, g)
                 fr.is_module = True
                 for st in mod._binding_nodes[name]:
+                    if isinstance(st, ast.ImportFrom):
+                        # imports are resolved lazily, one name at a time
+                        self.s_ImportFrom(st, fr, only=name)
+                        continue
                     if id(st) in g.setdefault('__executed__', set()):
                         continue
                     g['__executed__'].add(id(st))
@@ -669,7 +673,10 @@ class Interp(StmtMixin, ObjMixin):
                 pb = b.parts if isinstance(b, FStr) else [b]
                 return FStr(pa + pb)
             raise Unsupported('string operator with symbolic operand')
-        za, zb = to_z3(a), to_z3(b)
+        try:
+            za, zb = to_z3(a), to_z3(b)
+        except TypeError:
+            self.raise_('TypeError', f"unsupported operand type(s) for {op}: '{type(a).__name__}' and '{type(b).__name__}'")
         if z3.is_bool(za):
             za = z3.If(za, 1, 0)
         if z3.is_bool(zb):
@@ -860,6 +867,9 @@ class Interp(StmtMixin, ObjMixin):
         return (oa == ob) if op == '==' else (oa != ob)
 
     def is_(self, a, b):
+        from .values import Poison
+        if isinstance(a, Poison) or isinstance(b, Poison):
+            (a if isinstance(a, Poison) else b)._hit()
         if isinstance(a, SymOpt) or isinstance(b, SymOpt):
             if a is None or b is None:
                 return (a if isinstance(a, SymOpt) else b).is_none
